@@ -48,7 +48,8 @@ Clause(i, e, f) ==
     ELSE IF f # "" /\ e.digest # f THEN "NonInterference"
     ELSE "ok"
 
-RespMatches(p, r) == p = "any" \/ p = r \/ (p = "ioerror" /\ r \in {"notfound", "error"})
+\* ("empty": zero bytes without any exception - a Gopher menu all of whose entries were left out)
+RespMatches(p, r) == p = "any" \/ p = r \/ (p = "ioerror" /\ r \in {"notfound", "error"}) \/ (p = "ok" /\ r = "empty")
 \* the model's "some other byte" matches any one character of the logged selector
 SelMatches(p, s) == Len(p) = Len(s) /\ \A j \in 1..Len(p) : p[j] = s[j] \/ p[j] = H!Oth
 
